@@ -20,6 +20,7 @@ RULES = [
     (r"combined::ScanResultInner::<'t, D>::into_result$", "PRESENTATION", "order of the per-rule groups of matches of one file (HashMap<rule index, matches> -> Vec); each group and its content are order-free"),
     (r"fixer::Fixer::<L>::(do_parse|with_transform)$", "SET-LIKE", "transform names are only tested with `contains` by the template scanner", {"guard": "transform_names_used_as_set"}),
     (r"deserialize_env::TopologicalSort::<'a, T>::get_order$", "TOPO", "dependencies are visited before dependants whatever the start key (R2: visit is post-order); order among independent keys and the key named in a cycle error vary, registration results do not"),
+    (r"DependentRule>::visit_dependency::\{closure#\d\}$", "TOPO", "the rules of constraints/local utils are only walked to call TopologicalSort::visit for the ids they reference: a post-order visit yields dependencies first whatever the walk order (R2); only the id named in a cycle error can vary"),
     (r"rule_core::SerializableRuleCore::get_constraints$", EC, "map -> map; `?` only decides which invalid constraint is reported"),
     (r"impl core::convert::From<ast_grep_core::meta_var::MetaVarEnv<.*for std::collections::hash::map::HashMap<", "PER-KEY", "the sequence writes build one string per entry from that entry's own (ordered) node list; results go into a map"),
     (r"meta_var::MetaVarEnv::<'tree, D>::get_matched_variables$", "KEYED", "only non-test consumer is json_print::from_env, which files every variable into per-kind maps", {"guard": "matched_variables_consumers"}),
